@@ -1,6 +1,7 @@
 /-
   RoProps.C05gen — the multi-source machines REGENERATED from the Go source on every run
-  (go/extract/multigen.go → RoGen/MultiGen.lean: TakeUntil, SkipUntil, SampleWhen, ThrottleWhen) refine the
+  (go/extract/multigen.go → RoGen/MultiGen.lean: TakeUntil, SkipUntil, SampleWhen, ThrottleWhen, MergeAll — and with it
+  Merge / MergeWith* / MergeMap*, which are MergeAll over a synchronous or projected outer observable) refine the
   hand-written machines of RoModel/Multi/OpsA.lean, which are what the C05 theorems (RoProps/C05a.lean) are about.
 
   For each operator: `…_sim` (`MMachine.Sim` through an explicit relation between the Go locals as the translator
@@ -103,6 +104,26 @@ theorem throttleWhen_sim : (throttleWhenG (α := α)).Sim throttleWhenRel thrott
     obtain ⟨h1, h2⟩ := h
     refine ⟨⟨h1, ?_⟩, ?_⟩ <;> simp [throttleWhenG, build, unsubAll, throttleWhenL, throttleWhenM, h2]
 
+/-! ## MergeAll — `idx v` is the inner source a value `v` of the outer observable stands for. The hand-written
+    machine also carries MergeMap's index `i` (unused by MergeAll's own projection). -/
+
+def mergeAllRel (g : MergeAllSt) (h : MergeSt) : Prop :=
+  g.v0 = h.parentCtx ∧ g.v1 = h.count ∧ g.comp = h.comp
+
+theorem mergeAll_sim (idx : α → Nat) : (mergeAllG idx).Sim mergeAllRel (mergeAllM (fun c v _ => (c, idx v))) where
+  init := ⟨rfl, rfl, rfl⟩
+  boot c := by
+    simp only [mergeAllG, build, mergeAllM]
+    phases_rel <;> (intro s1 s2 h; obtain ⟨h1, h2, h3⟩ := h; simp [single, mergeAllRel, mergeAllL, h1, h2, h3])
+  react k n := by
+    simp only [mergeAllG, build, mergeAllM]
+    rcases k with _ | k <;> cases n <;> simp only [Nat.succ_ne_zero, if_true, if_false] <;>
+      phases_rel <;> (intro s1 s2 h; obtain ⟨h1, h2, h3⟩ := h; simp [single, mergeAllRel, mergeAllL, MergeSt.onDone, h1, h2, h3] <;>
+        first | done | (split <;> simp_all [Int.sub_eq_add_neg]))
+  teardown s1 s2 h := by
+    obtain ⟨h1, h2, h3⟩ := h
+    refine ⟨⟨h1, h2, ?_⟩, ?_⟩ <;> simp [mergeAllG, build, unsubAll, mergeAllL, mergeAllM, h3]
+
 /-! ## what the ties buy: the C05 theorems hold of the machines regenerated from the source -/
 
 open Ro.C05a in
@@ -138,6 +159,32 @@ theorem throttleWhen_gen (scripts : List (List (Notif α))) (sub : Ctx) (order :
       Spec.throttleWhen false (heard2 (eventsOf (Sources.hot scripts) order)) := by
   rw [throttleWhen_sim.out]; exact throttleWhen scripts sub order
 
+open Ro.C05a in
+/-- MergeAll as regenerated from operator_combining.go, hot outer observable: the delivered trace is the definition's
+    output for the arrival order, for every tuple of scripts and EVERY interleaving -/
+theorem mergeAll_gen (idx : α → Nat) (scripts : List (List (Notif α))) (sub : Ctx) (order : List Nat)
+    (hf : freshNames (fun c v _ => (c, idx v)) (fun k => k == 0) (fun _ => false) 0 (eventsOf (Sources.hot scripts) order) = true) :
+    (runMulti (mergeAllG idx) (Sources.hot scripts) sub order).out =
+      Spec.mergeAll 1 Ctx.nil (Spec.heard (fun c v _ => (c, idx v)) (fun k => k == 0) (fun _ => false) 0 (eventsOf (Sources.hot scripts) order)) := by
+  rw [(mergeAll_sim idx).out]; exact mergeAll _ scripts sub order hf
+
+open Ro.C05a in
+/-- `Merge(s₁…sₙ)` / `MergeWith*` (= `MergeAll()(Just(s₁…sₙ))`, synchronous outer) on the regenerated machine -/
+theorem merge_gen (scripts : List (List (Notif Int))) (sub : Ctx) (order : List Nat) :
+    (runMulti (mergeAllG Int.toNat) (mergeSources sub scripts) sub order).out =
+      Spec.merge sub scripts.length
+        (Spec.gateEvents (Spec.restrict (inner scripts.length) (eventsOf (mergeSources sub scripts) order))) := by
+  rw [(mergeAll_sim Int.toNat).out]; exact merge scripts sub order
+
+open Ro.C05a in
+theorem merge_releases_gen (scripts : List (List (Notif Int))) (sub : Ctx) (order : List Nat)
+    (h : (runMulti (mergeAllG Int.toNat) (mergeSources sub scripts) sub order).downOpen = false) (k : Nat)
+    (hk : 1 ≤ k ∧ k ≤ scripts.length) :
+    (runMulti (mergeAllG Int.toNat) (mergeSources sub scripts) sub order).sopen k = false := by
+  have r := (mergeAll_sim Int.toNat).run (mergeSources sub scripts) sub order
+  rw [r.downOpen] at h
+  rw [r.sopen]; exact merge_releases scripts sub order h k hk
+
 /-- release (C03 / C14 for these operators): once the regenerated machine's output has ended, both sources are released -/
 theorem release_gen [Inhabited α] (scripts : List (List (Notif α))) (sub : Ctx) (order : List Nat) (k : Nat) (hk : k < 2) :
     ((runMulti takeUntilG (Sources.hot scripts) sub order).downOpen = false →
@@ -158,7 +205,7 @@ theorem release_gen [Inhabited α] (scripts : List (List (Notif α))) (sub : Ctx
 
 /-- every operator of the list was translated (a source that leaves the fragment is reported, not skipped silently) -/
 theorem nothing_skipped : RoGen.Multi.skipped = [] := by decide
-theorem translated_names : RoGen.Multi.translated = ["TakeUntil", "SkipUntil", "SampleWhen", "ThrottleWhen"] := by decide
+theorem translated_names : RoGen.Multi.translated = ["TakeUntil", "SkipUntil", "SampleWhen", "ThrottleWhen", "MergeAll"] := by decide
 
 /-! ### tests of the regenerated machines (labelled as tests): the witness runs of C05a, on the regenerated text -/
 example : (runMulti (takeUntilG (α := Int)) (Sources.hot Ro.C05a.wScriptsTake) { marks := [7] } [0, 1, 0, 0]).out
@@ -172,11 +219,15 @@ end Ro.C05gen
 #print axioms Ro.C05gen.skipUntil_sim
 #print axioms Ro.C05gen.sampleWhen_sim
 #print axioms Ro.C05gen.throttleWhen_sim
+#print axioms Ro.C05gen.mergeAll_sim
 #print axioms Ro.C05gen.takeUntil_impl_gen
 #print axioms Ro.C05gen.takeUntil_partial_gen
 #print axioms Ro.C05gen.skipUntil_impl_gen
 #print axioms Ro.C05gen.sampleWhen_gen
 #print axioms Ro.C05gen.throttleWhen_gen
 #print axioms Ro.C05gen.release_gen
+#print axioms Ro.C05gen.mergeAll_gen
+#print axioms Ro.C05gen.merge_gen
+#print axioms Ro.C05gen.merge_releases_gen
 #print axioms Ro.C05gen.nothing_skipped
 #print axioms Ro.C05gen.translated_names
